@@ -480,6 +480,59 @@ def r08_6(ck: Check) -> None:
                   "rely on SQLite returning rows in insertion order (static analysis sees the missing ORDER BY, it cannot decide the scan order)")
 
 
+def r08_8(ck: Check) -> None:
+    """scan order = insertion order only holds for rowid tables: a table that is read without ORDER BY must not be WITHOUT ROWID
+    (its rows would come back in primary-key order, e.g. a block's transactions sorted by id instead of by position)"""
+    sch = schema(ck)
+    n = 0
+    for sel in sch.selects:
+        if sel.order_by:
+            continue
+        t = sch.tables.get(sel.table)
+        if t is None:
+            continue
+        n += 1
+        construct = "%s is read without ORDER BY, so it is a rowid table (rows come back in insertion order)" % t.name
+        where = "%s:%d" % (sch.module.path, t.line)
+        if t.without_rowid:
+            ck.violated("R08.8", construct, "the table is declared WITHOUT ROWID: a scan returns rows in primary-key order, so what is rebuilt from "
+                        "the scan order (the order of a block's transactions, the grouping by block) differs from what was written", where)
+        else:
+            ck.ok("R08.8", construct, "", where)
+    ck.expect_count("R08.8", "unordered SELECTs", n, 3)
+
+
+def r08_9(ck: Check) -> None:
+    """everything an object's encoder writes from its attributes is given back to the constructor where the block store re-creates the
+    object: an encoded attribute that is neither stored nor passed is silently reset to its default on reload (and the id changes)"""
+    from .c07 import extractor
+    ex = extractor(ck)
+    sites = 0
+    for fn in (STORE + "read_blocks_from_disk", STORE + "load_inputs", STORE + "load_outputs"):
+        s = ck.summ(fn, 0)
+        for e in s.events:
+            if e.kind != "call":
+                continue
+            for t in e.targets:
+                if not t.startswith("new:") or t[4:] not in ex.codecs:
+                    continue
+                c = ex.codecs[t[4:]]
+                if c.writer is None or e.term[0] != "call":
+                    continue
+                sites += 1
+                npos = len(e.term[2])
+                given = set(c.ctor_params[:npos]) | {k for k, _ in e.term[3] if isinstance(k, str)}
+                attrs = {c.ctor.get(p_, p_) for p_ in given}
+                need = {p_[-1] for p_ in c.writer if p_[0] not in ("const", "ignored") and isinstance(p_[-1], str)}
+                missing = sorted(need - attrs)
+                construct = "%s: %s(...) is re-created with every attribute its encoder writes" % (short(fn), t.split(".")[-1])
+                if missing:
+                    ck.violated("R08.9", construct, "encoded attribute(s) %s are not passed: a reloaded object differs from the stored one" % missing, e.loc)
+                else:
+                    ck.ok("R08.9", construct, "%s" % sorted(need), e.loc)
+    ck.expect_count("R08.9", "re-creation sites of encoded classes", sites, 8)
+
+
 def r08_7(ck: Check, rule: str = "R08.7") -> None:
     """the per-transaction row collectors are per-instance containers: a class-level mutable default would be shared by all builders"""
     tw = typed_writes(ck.walker, ck.repo)
@@ -523,6 +576,8 @@ def check(ck: Check) -> None:
     ck.run("R08.5", "one SQL transaction per flush; buffer handling under the lock", lambda: r08_5(ck))
     ck.run("R08.6", "key multiplicity vs domain multiplicity", lambda: r08_6(ck))
     ck.run("R08.7", "row collectors are per-instance", lambda: r08_7(ck))
+    ck.run("R08.8", "unordered reads rely on rowid (insertion) order", lambda: r08_8(ck))
+    ck.run("R08.9", "reload re-creates every encoded attribute", lambda: r08_9(ck))
     from .c07 import r07_1_2, r07_5
     ck.run("R07.1", "codec mirror of consensus classes (signature/public-key blobs round-trip)", lambda: r07_1_2(ck, True, "R07.1"))
     ck.assume("SQLite semantics (primary keys, OR IGNORE, ORDER BY) as documented")
